@@ -93,48 +93,27 @@ fn c18_truncate_valid() {
     assert!(block_ok(&q2[0..2]), "C18.K.truncate.valid: block 0 of player two is a distribution");
 }
 
-/// The common divisor the property speaks of: the sum of the entries of a block that exceed h,
-/// written with the same std operations as the implementation so that both sides of the equality
-/// below are the same expression (bit-precise comparison, no float theory needed).
-fn survivors_sum(b: &[f64], h: f64) -> f64 {
-    b.iter().filter(|p| p > &&h).sum()
-}
-
-fn check_block(orig: &[f64], new: &[f64], h: f64) {
-    if orig[0] > h || orig[1] > h {
-        let t = survivors_sum(orig, h);
-        assert!(new[0] == if orig[0] > h { orig[0] / t } else { 0.0 }, "C18.K.truncate.survivors: first entry is p/T or 0");
-        assert!(new[1] == if orig[1] > h { orig[1] / t } else { 0.0 }, "C18.K.truncate.survivors: second entry is p/T or 0");
-    }
-}
-
-/// C18.K.truncate.survivors: in a block where some entry exceeds h, an entry that was <= h ends 0
-/// and every entry > h ends p / T with T the sum of the block's entries > h (one divisor per block).
+/// C18.K.truncate.zeroed: in every block (of every player, wherever it is stored) in which some
+/// entry exceeds h, every entry that does not exceed h ends exactly 0.0 -- "exactly those actions".
 #[kani::proof]
 #[kani::unwind(6)]
-fn c18_truncate_survivors() {
+fn c18_truncate_zeroed() {
     let (g, p1, p2, h) = truncate_setup();
     let mut s = Strategies { game: &g, probs: [Box::new(p1), Box::new(p2)] };
     s.truncate(h);
     let [q1, q2] = &s.probs;
-    check_block(&p1[0..2], &q1[0..2], h);
-    check_block(&p1[2..4], &q1[2..4], h);
-    check_block(&p2[0..2], &q2[0..2], h);
-    kani::cover!(p1[0] > h && !(p1[1] > h), "partial survival reachable");
-}
-
-/// smallest instance: one infoset of two actions for player one, nothing for player two
-#[kani::proof]
-#[kani::unwind(4)]
-fn c18_truncate_survivors_min() {
-    let g = game(&[2], &[], &[]);
-    let p1 = [any_prob(), any_prob()];
-    kani::assume(p1[0] > 0.0 || p1[1] > 0.0);
-    let h: f64 = kani::any();
-    kani::assume(!h.is_nan());
-    let mut s = Strategies { game: &g, probs: [Box::new(p1), Box::new([])] };
-    s.truncate(h);
-    let [q1, _] = &s.probs;
-    check_block(&p1[0..2], &q1[0..2], h);
-    kani::cover!(p1[0] > h && !(p1[1] > h), "partial survival reachable");
+    let mut b = 0;
+    while b < 2 {
+        let (x, y) = (p1[2 * b], p1[2 * b + 1]);
+        if x > h || y > h {
+            assert!(x > h || q1[2 * b] == 0.0, "C18.K.truncate.zeroed: player one, entry <= h not removed");
+            assert!(y > h || q1[2 * b + 1] == 0.0, "C18.K.truncate.zeroed: player one, entry <= h not removed");
+        }
+        b += 1;
+    }
+    if p2[0] > h || p2[1] > h {
+        assert!(p2[0] > h || q2[0] == 0.0, "C18.K.truncate.zeroed: player two, entry <= h not removed");
+        assert!(p2[1] > h || q2[1] == 0.0, "C18.K.truncate.zeroed: player two, entry <= h not removed");
+    }
+    kani::cover!(!(p1[0] > h || p1[1] > h) && p1[2] > h && !(p1[3] > h), "flat block before a partially truncated block");
 }
